@@ -167,5 +167,9 @@ WindowKeepsBoth == phase = "window" =>
                   /\ ListeningOf(pend) \subseteq LiveListening
                   /\ (Serving(lastGood) \cap Serving(pend)) \subseteq LiveServing
 
+\* C14 at the level of the server: the NAT timeout is a property of the process (-udptimeout), not of a configuration
+\* format; an association opened by one datagram at time 0 is reported removed at some time in [timeout, timeout + slack]
+NatLifeOK(ms, timeout, slack) == ms >= timeout /\ ms <= timeout + slack
+
 View == <<gens, cur, lastGood, phase, pend, foreign, nloads>>
 ===============================================================================
